@@ -38,7 +38,9 @@ def leaf_values(k):
                 (1, 10, 400), (1, 10, -400), (12345678901234567890123, 10, 0), (15, 10, -1), (1, 2, -1074),
                 (9999999999999962, 10, -326),
                 # a mantissa beyond the float range, the value well inside it
-                (10 ** 400 + 1, 10, -200), (2 ** 2000 + 1, 2, -1995)]
+                (10 ** 400 + 1, 10, -200), (2 ** 2000 + 1, 2, -1995),
+                # a fractional mantissa (a python float): the same number as with the point moved into the exponent
+                (1.5, 10, 0), (0.25, 10, 3), (-2.5, 10, -1), (1.5, 2, 0), (0.1, 2, 0), (-0.375, 2, 5), (3.0, 10, 2)]
     if k in ('UTF8String',):
         return ['', 'a', 'héllo', '日本', 'x' * 130]
     if k in ('BMPString',):
@@ -128,6 +130,13 @@ def records():
     bsd3 = T('SEQUENCE', [], fields=[('r', inner_bs, ('default', {'bs': '0101'})), ('w', T('OCTETSTRING'), 'req')])
     out += [(bsd3, {'r': {'bs': '101'}, 'w': b'w'}), (bsd3, {'r': {'bs': '0101'}, 'w': b'w'}), (bsd3, {'w': b'w'}),
             (bsd3, {'r': {'bs': '00101', 'k': 1}, 'w': b''})]
+    # a DEFAULT SET OF: its members come in no particular order, also when the value is a Python list beside the type
+    dso = T('SEQUENCE', [], fields=[('a', T('INTEGER'), 'req'), ('s', T('SETOF', elem=T('INTEGER')), ('default', [1, 2]))])
+    out += [(dso, {'a': 5, 's': [2, 1]}), (dso, {'a': 5, 's': [1, 2]}), (dso, {'a': 5, 's': [1, 2, 2]}), (dso, {'a': 5, 's': [1, 1]}),
+            (dso, {'a': 5}), (dso, {'a': 5, 's': []})]
+    dso2 = T('SET', [], fields=[('t', T('SETOF', [('E', CTX, 1)], elem=T('SEQUENCE', fields=[('x', T('INTEGER'), 'req')])),
+                                 ('default', [{'x': 1}, {'x': 2}])), ('n', T('INTEGER'), 'opt')])
+    out += [(dso2, {'t': [{'x': 2}, {'x': 1}]}), (dso2, {'t': [{'x': 1}, {'x': 2}], 'n': 1}), (dso2, {'t': [{'x': 2}]})]
     bsd2 = T('SET', [], fields=[('bs', T('BITSTRING', [('I', CTX, 1)]), ('default', '0000')), ('n', T('INTEGER'), 'opt')])
     out += [(bsd2, {'bs': '000'}), (bsd2, {'bs': '00000', 'n': 1}), (bsd2, {})]
     # REAL members with a DEFAULT: values that only a float would take for the default (beyond 53 bits, below the
